@@ -1032,6 +1032,8 @@ def render_immediate_rule(ctx, R, sigil=False):
 
 
 MUTANTS = [
+    ('ims-not-sign-extended', 'miasmx/arch/ia32_arch.py', 'self.intsize(struct.unpack(fmt, bin.readbs(taille))[0], dib==ims)})', 'self.intsize(struct.unpack(fmt, bin.readbs(taille))[0], False)})', 'C01.D14'),
+
     ('sse-cmp-pseudo-op-revived', 'miasmx/arch/ia32_arch.py', "'cmpsd', 'cmpss'] and len(args)==2 \\\n", "'cmpsd', 'cmpss'] and len(args)==3 \\\n", 'C01.D13'),
     ('pinsrw-mem-dword', 'miasmx/arch/ia32_arch.py', "    '#p#insrb':   x86_afs.u08, '#p#insrw':   x86_afs.u16,", "    '#p#insrb':   x86_afs.u08,", 'C01.D5'),
     ('movddup-m128', 'miasmx/arch/ia32_arch.py', "                                    or sse_prefix == [0xF2]: # (movddup)", "                                    or False:", 'C01.D5'),
